@@ -6,8 +6,8 @@
    [encode_index], and [parse_layout], an independent reader of the caibx layout at fixed offsets).
    [d] is desync.Digest.Algorithm(); a file is a list of bytes. *)
 From Coq Require Import List NArith Arith Bool.
-From DS Require Import Gen.Constants Base.Bytes Base.LE64 Model.Format Model.Index
-     Proofs.FormatProofs Proofs.IndexProofs Proofs.PrefixProofs Proofs.ReencodeProofs Proofs.LayoutProofs
+From DS Require Import Gen.Constants Base.Bytes Base.LE64 Model.Format Model.Index Model.IndexStore
+     Proofs.IndexStoreProofs Proofs.FormatProofs Proofs.IndexProofs Proofs.PrefixProofs Proofs.ReencodeProofs Proofs.LayoutProofs
      Proofs.C04Final.
 Import ListNotations.
 Local Open Scope N_scope.
@@ -129,6 +129,20 @@ Proof.
   intros [_ _ _ _ _ _ Htot _ _]. vm_compute in Htot. discriminate.
 Qed.
 
+(* Store histories (LocalIndexStore: os.Create truncates, WriteTo writes from offset 0): whatever was
+   stored under the name before -- nothing, a shorter, a longer index -- the file after StoreIndex i is
+   exactly Index.WriteTo's bytes of i, and reading the name back after two stores gives the second. *)
+Theorem C04_store_overwrites : forall (old : option bytes) (i : index),
+  local_store_index old i = encode_index i.
+Proof. exact store_overwrites. Qed.
+Print Assumptions C04_store_overwrites.
+
+Theorem C04_store_history_get : forall d old i1 i2,
+  wf_index i2 -> digest_ok d (ix_flags i2) = true ->
+  local_get_index d (local_store_index (Some (local_store_index old i1)) i2) = Ok i2.
+Proof. exact store_history_get. Qed.
+Print Assumptions C04_store_history_get.
+
 (* ---- non-vacuity ---- *)
 Definition ex_index : index :=
   mkIndex CaFormatSHA512256 16 64 256 [(ex_id 7, 0, 100); (ex_id 8, 100, 0); (ex_id 9, 100, 256)].
@@ -157,3 +171,14 @@ Proof. vm_compute. split; reflexivity. Qed.
 Example C04_example_first_chunk_empty :
   decode_index SHA256 (encode_index (mkIndex 0 1 2 300 [(ex_id 7, 0, 0); (ex_id 8, 0, 5)])) = Err InvalidFormat.
 Proof. vm_compute. reflexivity. Qed.
+
+(* an open without O_TRUNC: a 0-chunk index stored over a 3-chunk one leaves 224 bytes, of which only the
+   first 104 are the new index; IndexFromReader does not notice (it stops at the first tail record) *)
+Example C04_store_without_truncate_refuted :
+  let f := store_index_file false (Some (encode_index ex_index)) (mkIndex CaFormatSHA512256 1 2 3 []) in
+  length f = 224%nat /\ f <> encode_index (mkIndex CaFormatSHA512256 1 2 3 []) /\
+  local_get_index SHA512_256 f = Ok (mkIndex CaFormatSHA512256 1 2 3 []) /\
+  parse_layout f = None.
+Proof.
+  vm_compute. repeat split; try reflexivity. intros E. apply (f_equal (@length N)) in E. vm_compute in E. discriminate.
+Qed.
